@@ -139,4 +139,9 @@ the concrete IEEE/mpmath round-to-nearest instance `Rounding.ieee` (run by the d
 CPython/mpmath on every check) satisfies the contract assumed above -/
 theorem C02_contract_ieee : T3.Contract Rounding.ieee := T3.contract_ieee
 
+/-- **argument type of the start accumulator, regenerated code**: a float start accumulator is the integer `int()` makes
+of it, never `"clear"` (`rfl` on the regenerated definition). -/
+theorem C02_gen_acc_float (R : Rounding) (amb : Nat) (T rate accel jerk : Py.Val) (q : Rat) :
+    Gen.move_dist_t3 R amb T rate accel jerk (.flt q) = Gen.move_dist_t3 R amb T rate accel jerk (.int (Py.intOfRat q)) := by rfl
+
 end Plotink
